@@ -34,8 +34,11 @@ def akey(coord, dims):
 def gen_payload(t, link, big=False):
     if link and t.chance(0.4):
         return {'color': t.pick(COLORS)}
-    size = t.weighted([(0, 5), (400, 2), (3000, 1), (9000, 1), (20000, 1 if big else 0)])
-    if size:
+    size = t.weighted([(0, 10), (400, 4), (3000, 2), (9000, 2), (20000, 2 if big else 0), (-1, 1 if big else 0)])
+    if size == -1:
+        # payloads around the buffer sizes a reader might use (64 KiB, 128 KiB) and well beyond
+        size = t.pick([65536, 65536, 131072, 200000]) + t.randint(-8, 8)
+    elif size:
         size += t.randint(0, 700)
     return {'tok': t.choice(1 << 22), 'size': size}
 
